@@ -53,6 +53,11 @@ def cases(tier, seed):
     # directed: re-initialisation of a Sphere2Sphere system at a state whose tangents were memoised before
     for pair in S2S_PAIRS[:3]:
         out.append({"family": "s2s", "pair": list(pair), "nops": 60, "directed": "reassemble_after_steps"})
+    # directed: the reference contact basis is moved along different paths that end with the same contact normal, while the
+    # tangents are only ever queried at one other state (so that a remembered entry survives)
+    for pair in (S2S_PAIRS[0], S2S_PAIRS[1]):
+        for rep in range(2):
+            out.append({"family": "s2s", "pair": list(pair), "nops": 40, "directed": "basis_path"})
     i = 0
     while len(out) < n:
         r = i % 24
@@ -381,6 +386,29 @@ def run_s2s(spec, ctx, ct, log):
         ku, u = _pick(rng, us)
         state_op = rng.random() < 0.1
         op = None
+        if directed == "basis_path":
+            if k == 0:
+                # five well separated contact directions: x (queried) and a, b, c, d (visited by step callbacks)
+                for _ in range(2):
+                    qs.append(q0 + 0.0 * q0)
+                for j in range(1, 5):
+                    qj = q0.copy()
+                    mover = [c_ for c_ in S.contributions if getattr(c_, "nq", 0)][-1]
+                    qj[mover.my_qDOF[:3]] += rng.normal(size=3) * 1.5
+                    qs[j] = qj
+                perm = [1 + int(i_) for i_ in rng.permutation(3)]
+                spec["_plan"] = (["step@1", "t1t2@0", "t1t2_q1_q2@0"] + [f"step@{perm[0] + 1 if perm[0] < 4 else 4}", f"step@{perm[1] + 1 if perm[1] < 4 else 4}"]
+                                 + ["step@1", "t1t2@0", "t1t2_q1_q2@0", "W_F@0", "step@4", "step@2", "step@3", "step@1", "t1t2@0", "gamma_F@0", "step@3", "step@4", "step@2", "step@1", "t1t2@0", "t1t2_q1_q2@0"])
+            plan = spec["_plan"]
+            if k < len(plan):
+                name, _, idx = plan[k].partition("@")
+                kt, t = 0, ts[0]
+                kq = int(idx)
+                q = qs[kq]
+                if name == "step":
+                    state_op, op = True, "step_callback"
+                else:
+                    state_op, op = False, name
         if directed == "reassemble_after_steps":
             # query tangents at (t0, q0); move the reference basis by step callbacks at other states; query again (memoised with the
             # moved basis); re-assemble (basis recomputed from q0); query again at the same (t0, q0)
